@@ -229,6 +229,11 @@ def evalE (cfg : Cfg W) : Nat → Expr → Env → W → Except String (Val × W
           else .error s!"panic: slice bounds out of range [{lo}:{hi}] with capacity {l.length}"
         | _, _ => .error "slice bounds"
       | _ => .error "slice of non-list"
+    | .call (.sel (.call g gargs) m) args => do
+      -- a method called on the result of a call: evaluate the receiver, pass it first
+      let (rv, w) ← evalE cfg fuel (.call g gargs) env w
+      let (vs, w) ← evalArgs cfg fuel args env w
+      cfg.ext ("#." ++ m) (rv :: vs) env w
     | .call f args => do
       let (vs, w) ← evalArgs cfg fuel args env w
       let name := dotted f
@@ -239,8 +244,8 @@ def evalE (cfg : Cfg W) : Nat → Expr → Env → W → Except String (Val × W
       | "append", (.list l) :: rest => .ok (.list (l ++ rest), w)
       | "append", .nil :: rest => .ok (.list rest, w)
       | "#array", [.int n] => .ok (.list (List.replicate n.toNat .nil), w)
-      | "make", [.str _, .int n] => .ok (.list (List.replicate n.toNat (.int 0)), w)
-      | "make", [.str _, .int n, .int _] => .ok (.list (List.replicate n.toNat (.int 0)), w)
+      | "make", [.str ty, .int n] => .ok (.list (List.replicate n.toNat (if ty == "[]string" then .str "" else .int 0)), w)
+      | "make", [.str ty, .int n, .int _] => .ok (.list (List.replicate n.toNat (if ty == "[]string" then .str "" else .int 0)), w)
       | _, _ =>
         match vs with
         | [v] => match conv name v with
